@@ -493,7 +493,7 @@ let () =
     let pre = !real in
     let (s', ss) = Spec.spec_update now ops stop !s in
     let skip =
-      match Excl.excluded_block now pre ops with
+      match (match Excl.excluded_block now pre ops with Some n -> Some n | None -> Excl.excluded_block now !d ops) with
       | Some name -> Some ("EXCL " ^ name)
       | None ->
       if L.exists (fun o -> Spec.spec_mode true o = Spec.CmpNone) ops then Some "storage-level operation in block"
@@ -545,7 +545,10 @@ let () =
                 let mode = Spec.spec_mode false o in
                 let (s', rs) = Spec.spec_step now o !s in
                 let skip =
-                  match Excl.excluded now pre o with
+                  (* the finding about list positions depends on the positions themselves, which the
+                     dumps do not carry (they list elements in order): it is evaluated on the faithful
+                     model's pre-state, which the correspondence check keeps equal to the real one *)
+                  match (match Excl.excluded now pre o with Some n -> Some n | None -> Excl.excluded now !d o) with
                   | Some name -> Some ("EXCL " ^ name)
                   | None -> if mode = Spec.CmpNone then Some "storage-level operation" else None in
                 finish_step now rd' s' (cmp_result o mode rr rs) skip;
